@@ -326,3 +326,31 @@ impl FragmentAssembler {
         self.pending.len()
     }
 }
+
+#[cfg(edp_rs_verif)]
+impl FragmentAssembler {
+    /// Verification hook (read-only): per pending sequence its id, the fragment count if the
+    /// header was seen, the ids of the fragments held and the number of payload bytes held.
+    pub fn verif_snapshot(&self) -> Vec<(u64, Option<u64>, Vec<u64>, usize)> {
+        let mut out: Vec<_> = self
+            .pending
+            .iter()
+            .map(|(seq, msg)| {
+                let mut ids: Vec<u64> = msg
+                    .fragments
+                    .iter()
+                    .enumerate()
+                    .filter(|(_, f)| f.is_some())
+                    .map(|(i, _)| i as u64 + 1)
+                    .collect();
+                ids.extend(msg.pending_fragments.keys().copied());
+                ids.sort_unstable();
+                let bytes = msg.fragments.iter().flatten().map(|f| f.len()).sum::<usize>()
+                    + msg.pending_fragments.values().map(|f| f.len()).sum::<usize>();
+                (seq.0, msg.total_fragments.map(|c| c.get()), ids, bytes)
+            })
+            .collect();
+        out.sort();
+        out
+    }
+}
